@@ -139,18 +139,23 @@ PROPS = {
     "C08": dict(
         level="other",
         bounded=_both(_mod("rel", "run_c08"), _mod("extra", "run_c08x")),
-        trusted=TB,
-        assumed=["the inclusion theorems of the cited papers"],
-        explanation="Relational (oracle-free) run-time contract over the shipped corpora and generated bases of up to dozens of atoms, "
-        "plus the operator contracts of C01/C02 discharged by Engine P.",
+        p_also=["C01", "C02", "C03", "C04", "C05"],
+        trusted=TB + ["TB-z3", "TB-time", "TB-sat", "TB-ifml"],
+        assumed=["the inclusion theorems of the cited papers (Komo/Beierle 2022, Haldimann/Beierle 2022), as statements about the specification functions the operators are proved against"],
+        explanation="Engine P discharges the contracts of every operator against its specification function (C01-C05); the inclusions "
+        "are theorems relating those specifications (assumed, cited). Engine B checks the inclusions themselves, oracle-free, on the "
+        "shipped corpora, generated bases of up to dozens of atoms and oracle-filtered delicate bases (bounded).",
     ),
     "C09": dict(
         level="other",
         bounded=_both(_mod("rel", "run_c09"), _mod("extra", "run_c09x")),
-        trusted=TB,
-        assumed=["L9a-e (System P from preferential semantics)"],
-        explanation="Engine P proves general_inference's short cuts (reflexivity / supraclassicality path); the postulates are "
-        "checked as implications between answers on generated premise/conclusion batches (bounded).",
+        p_also=["C01", "C02", "C03", "C04", "C05"],
+        trusted=TB + ["TB-z3", "TB-time", "TB-sat", "TB-ifml"],
+        assumed=["L9a-e: the specification functions of the operators (preferential / ranked model semantics) satisfy direct inference, System P and, for Z and lex, rational monotony"],
+        explanation="Engine P proves general_inference's short cuts (reflexivity / supraclassicality path) and the contracts of every "
+        "operator against its specification function (C01-C05), for arbitrary distinct integer keys; the postulates are theorems about "
+        "those specifications (assumed). Engine B checks the postulates as implications between answers on generated "
+        "premise/conclusion batches, incl. delicate bases, world-level Or instances and sparse key sets (bounded).",
     ),
     "C10": dict(
         level="other",
